@@ -730,9 +730,9 @@ def run(chk, replay=None):
     for problem in (1, 2):
         r = Run(chk, exe, problem, rng)
         try:
-            r.engineered(150 if quick else 1500)
+            r.engineered(150 if quick else 5000)
             r.run_groups()
-            r.history(4000 if quick else 40000)
+            r.history(4000 if quick else 150000)
             mlines, manswers = r.murmur(10 if quick else 200) if problem == 1 else ([], [])
         except Dead as e:
             chk.violation(str(e), {"problem": problem, "harness_seed": r.s.seed, "lines": r.s.log[1:]},
